@@ -218,6 +218,14 @@ def check(ctx):
                         ctx.violation('R4.zero_skips', '%s:multi_channel_iteration' % ue['where'],
                                       'densities are requested from the kernel although the value is zero')
         ctx.guard('R4', fsite(f), r4)
+    _shared(ctx)
+
+
+def _shared(ctx):
+    from . import C07, C08
+    from .common import Proxy, share
+    share(ctx, 'C08', 'R5/C08.', ['R1.', 'R6.'])
+    share(ctx, 'C07', 'R5/C07.', ['R2.skip', 'R4.norm_nonzero'])
 
 
 def value_atoms(t):
